@@ -438,7 +438,7 @@ def call_method(ip, st, recv, name, args, kwargs):
             if len(args) > 1:
                 return args[1]
             _raise(KeyError, repr(k))
-    if type(recv).__name__ == "SText" and name == "decode":
+    if getattr(recv, "is_text", False) and name == "decode":
         # assumed contract on bytes.decode('utf-8'): raises UnicodeDecodeError on ill-formed input; otherwise
         # yields the characters successive decode steps yield (so the total width is the column difference)
         if recv.kind != "bytes":
@@ -490,7 +490,7 @@ def b_len(ip, st, x):
     x = st.force(x)
     if isinstance(x, ModelObj):
         return x.py_len(st)
-    if type(x).__name__ == "SText":
+    if getattr(x, "is_text", False):
         return x.length
     if isinstance(x, SObj):
         if x.base_list:
@@ -679,7 +679,7 @@ def b_isinstance(ip, st, x, cls):
             return issubclass(int, c)
         if isinstance(x, SReal):
             return issubclass(float, c)
-        if type(x).__name__ == "SText":
+        if getattr(x, "is_text", False):
             return issubclass(str if x.kind == "str" else bytes, c)
         if isinstance(x, SOpaque) and x.kind == "Char":
             return issubclass(str, c)
